@@ -892,6 +892,23 @@ fn translate_windowed(
         })
     );
 
+    // A RANGE frame with a numeric offset measures a distance along ONE ordering value: the engines
+    // reject it next to any other number of ORDER BY expressions, and it has no meaning there.
+    if supports_frame && window.frame.kind == WindowKind::Range && window.sort.len() != 1 {
+        let is_offset = |bound: &Option<rq::Expr>| {
+            matches!(
+                bound,
+                Some(rq::Expr { kind: rq::ExprKind::Literal(Literal::Integer(i)), .. }) if *i != 0
+            )
+        };
+        if is_offset(&window.frame.range.start) || is_offset(&window.frame.range.end) {
+            return Err(Error::new_simple(
+                "window: a `range` with an offset needs exactly one sort key",
+            )
+            .with_span(span));
+        }
+    }
+
     let mut order_by: Vec<OrderByExpr> = (window.sort)
         .into_iter()
         .map(|sort| translate_column_sort(&sort, ctx))
